@@ -160,4 +160,55 @@ example : Valid db0 planA := by
   · exact createIndex_undone _ 1 11 { cols := [1, 2, 3], idxs := fun i => i == 10 } (by simp [exec, Db.set, db0]) (by simp)
   · exact dropIndex_undone _ 1 10 { cols := [1, 2, 3], idxs := fun j => j == 11 || j == 10 } (by simp [exec, Db.set, db0]) (by simp)
 
+/-! ### the flag of one ALTER TABLE statement -/
+
+theorem alterFlag_go {α : Type} (inv : α → Bool) (cs : List α) (b : Bool) :
+    cs.foldl (fun r c => r && inv c) b = (b && cs.all inv) := by
+  induction cs generalizing b with
+  | nil => simp
+  | cons c cs ih => rw [List.foldl_cons, ih, List.all_cons, Bool.and_assoc]
+
+/-- **alter_flag_iff**: an ALTER TABLE statement is reported reversible exactly when every change in it
+is invertible - one irreversible change anywhere in the list is enough, whatever follows it. -/
+theorem alter_flag_iff {α : Type} (inv : α → Bool) (cs : List α) :
+    alterFlag inv cs = true ↔ ∀ c ∈ cs, inv c = true := by
+  unfold alterFlag
+  rw [alterFlag_go]
+  simp
+
+/-- the flag is the conjunction of the flags of the single-change statements (what the correspondence
+run observes through the real planners). -/
+theorem alter_flag_compositional {α : Type} (inv : α → Bool) (cs : List α) :
+    alterFlag inv cs = cs.all (fun c => alterFlag inv [c]) := by
+  unfold alterFlag
+  rw [alterFlag_go]
+  simp [List.foldl]
+
+/-- **alter_flag_perm**: the order of the changes does not matter. -/
+theorem alter_flag_perm {α : Type} (inv : α → Bool) (cs ds : List α) (h : cs.Perm ds) :
+    alterFlag inv cs = alterFlag inv ds := by
+  have key : ∀ l : List α, alterFlag inv l = l.all inv := by
+    intro l; unfold alterFlag; rw [alterFlag_go]; simp
+  rw [key, key]
+  cases hc : cs.all inv <;> cases hd : ds.all inv <;> try rfl
+  · rw [List.all_eq_true] at hd
+    have : cs.all inv = true := List.all_eq_true.mpr (fun x hx => hd x (h.mem_iff.mp hx))
+    rw [this] at hc; cases hc
+  · rw [List.all_eq_true] at hc
+    have : ds.all inv = true := List.all_eq_true.mpr (fun x hx => hc x (h.mem_iff.mpr hx))
+    rw [this] at hd; cases hd
+
+/-- adding changes never turns an irreversible statement into a reversible one. -/
+theorem alter_flag_append {α : Type} (inv : α → Bool) (cs ds : List α) (h : alterFlag inv cs = false) :
+    alterFlag inv (cs ++ ds) = false ∧ alterFlag inv (ds ++ cs) = false := by
+  have key : ∀ l : List α, alterFlag inv l = l.all inv := by
+    intro l; unfold alterFlag; rw [alterFlag_go]; simp
+  rw [key] at h
+  rw [key, key, List.all_append, List.all_append, h]
+  simp
+
+/-- non-vacuity: an unnamed check (not invertible) followed by a named one. -/
+example : alterFlag (fun (named : Bool) => named) [false, true] = false ∧
+    alterFlag (fun (named : Bool) => named) [true, true] = true := by decide
+
 end Props.C17
